@@ -9,7 +9,7 @@ from sa.load import AnalysisError, Repo, loc
 from sa.report import Run
 from spec import formulas
 
-from .common import eq_term, events, evaluate_global, history_free, returns, show, term_of
+from .common import elastic_graphs, eq_term, events, history_free, returns, show, term_of
 
 KERNELS = [
     'wavelength_from_tof', 'dspacing_from_tof', 'energy_from_tof', 'energy_from_wavelength',
@@ -127,9 +127,7 @@ def _run(tier: str) -> Run:
 
     # ---- R3: graph wiring ------------------------------------------------
     r3 = run.rule('R3', 'every graph entry q -> f(params) satisfies term(f)[p := D(p)] == D(q) (one-step soundness)', 23)
-    table = evaluate_global(repo, 'conversion.graph.tof', '_GRAPH_DYNAMICS_BY_ORIGIN')
-    if not isinstance(table, dict) or not table:
-        raise AnalysisError('_GRAPH_DYNAMICS_BY_ORIGIN is not a literal table')
+    table = elastic_graphs(repo)  # through the public factory, not a private table name
     entries = []
     for origin, graph in table.items():
         for key, ref in graph.items():
@@ -167,7 +165,7 @@ def _run(tier: str) -> Run:
                     r3.fail(inst, loc(gmi.functions['elastic']), f'kernel does not return key {k}', key=inst)
                     continue
                 got = term_of(val, fi).subst(mapping)
-                r3.check(eq_term(got, D[k]), inst, f'{gmi.path.split("/src/")[-1]}:_GRAPH_DYNAMICS_BY_ORIGIN',
+                r3.check(eq_term(got, D[k]), inst, f'{gmi.path.split("/src/")[-1]}:elastic',
                          {'computed': T.show(got), 'definition': T.show(D[k])}, key=inst)
     run.extra['unspecified_graph_nodes'] = unspecified
 
